@@ -1720,3 +1720,16 @@ def _text_anchor_spellings(repo, ob, failure):
 GENERATORS.insert(0, ("C19.anchor.any_spelling", _text_anchor_spellings))
 GENERATORS.insert(0, ("C19.anchor.text_located", _text_anchor_spellings))
 GENERATORS.insert(0, ("C09.point.any_spelling", _text_anchor_spellings))
+
+
+def _degenerate_extent_dimension(repo, ob, failure):
+    """a missing root dimension is never derived from an extent without area (no `inf` / `NaN` lengths)"""
+    for doc in ['<svg height="100"><line xy1="0 5" xy2="20 5"/></svg>', '<svg width="50"><line xy1="3 0" xy2="3 9"/></svg>']:
+        r = run_svgdx(repo, doc, args=("--no-auto-styles", "--border", "0"))
+        if r["rc"] == 0 and ("inf" in r["out"] or "NaN" in r["out"]):
+            return {"input": doc, "args": ["--no-auto-styles", "--border", "0"], "observed": r["out"].strip()[:160], "expected": "no inf / NaN length on the root: the dimension that cannot be derived is left out"}
+    return None
+
+
+GENERATORS.insert(0, ("C08.root.no_dimension", _degenerate_extent_dimension))
+GENERATORS.insert(0, ("C08.root.derived", _degenerate_extent_dimension))
